@@ -274,6 +274,10 @@ func (this *RaftGroup) run() {
 				if rd.Snapshot.Metadata.Index > lastAppliedIdx {
 					lastAppliedIdx = rd.Snapshot.Metadata.Index
 				}
+				// The membership changes covered by the snapshot are never applied one by one.
+				// The next local snapshot has to describe the group as the received one does.
+				confState := rd.Snapshot.Metadata.ConfState
+				this.raftConfState = &confState
 				verifHook(this, "snapinstalled", &rd, nil, nil)
 			}
 			for _, entry := range rd.CommittedEntries {
